@@ -214,7 +214,7 @@ def run_seq_property(pid, tier, seed, extra_cases=None, level="proof", ncases=No
         sample = cases[len(corpus)] if len(cases) > len(corpus) else cases[0]
         coverage = dict(
             obligations=len(names), discharged=len(done), theorems=names,
-            checker_cmd="cd /verif/coq && make -j16 && coqc -Q . GB Properties.v; coqc -Q . GB Properties2.v  (Print Assumptions under every theorem; coqchk -silent -o in the thorough tier)",
+            checker_cmd="cd /verif/coq && make -j16 && for f in Properties Properties2 Properties3; do coqc -Q . GB $f.v; done  (Print Assumptions under every theorem; coqchk -silent -o in the thorough tier)",
             trusted_base=common.TRUSTED_BASE, coqchk={k: v for k, v in chk.items() if k != "tail"},
             evaluations=nops, cases=len(cases), distinct_nontrivial=nontrivial,
             rule="seeded structured (70%) / uniform (30%) histories over per-case key tables, each run on the Go tree and the extracted Coq model; distinct = different (type, order, key table, ops); non-trivial = at least one node split and (order 2 or) at least one merge observed in the Go snapshots",
